@@ -357,6 +357,9 @@ class LocationTable:
         DuplicatedPacketException
             If the packet is duplicated.
         """
+        # Entries that outlived their lifetime since the last reception are gone
+        # before this packet is processed (it must not revive their state).
+        self.refresh_table()
         with self.loc_t_lock:
             entry = self.loc_t.get(position_vector.gn_addr)
             if entry is None:
@@ -389,6 +392,9 @@ class LocationTable:
         DuplicatedPacketException
             If the packet is duplicated.
         """
+        # Entries that outlived their lifetime since the last reception are gone
+        # before this packet is processed (it must not revive their state).
+        self.refresh_table()
         so_pv = guc_extended_header.so_pv
         with self.loc_t_lock:
             entry: LocationTableEntry | None = self.get_entry(so_pv.gn_addr)
@@ -428,6 +434,9 @@ class LocationTable:
         DuplicatedPacketException
             If the packet is duplicated.
         """
+        # Entries that outlived their lifetime since the last reception are gone
+        # before this packet is processed (it must not revive their state).
+        self.refresh_table()
         with self.loc_t_lock:
             entry: LocationTableEntry | None = self.get_entry(
                 tsb_extended_header.so_pv.gn_addr)
@@ -464,6 +473,9 @@ class LocationTable:
         DuplicatedPacketException
             If the packet is duplicated.
         """
+        # Entries that outlived their lifetime since the last reception are gone
+        # before this packet is processed (it must not revive their state).
+        self.refresh_table()
         so_pv = gbc_extended_header.so_pv
         with self.loc_t_lock:
             entry: LocationTableEntry | None = self.get_entry(so_pv.gn_addr)
@@ -506,6 +518,9 @@ class LocationTable:
         DuplicatedPacketException
             If the packet is duplicated.
         """
+        # Entries that outlived their lifetime since the last reception are gone
+        # before this packet is processed (it must not revive their state).
+        self.refresh_table()
         so_pv = ls_request_header.so_pv
         with self.loc_t_lock:
             entry: LocationTableEntry | None = self.get_entry(so_pv.gn_addr)
@@ -548,6 +563,9 @@ class LocationTable:
         DuplicatedPacketException
             If the packet is duplicated.
         """
+        # Entries that outlived their lifetime since the last reception are gone
+        # before this packet is processed (it must not revive their state).
+        self.refresh_table()
         so_pv = ls_reply_header.so_pv
         with self.loc_t_lock:
             entry: LocationTableEntry | None = self.get_entry(so_pv.gn_addr)
@@ -586,6 +604,9 @@ class LocationTable:
         DuplicatedPacketException
             If the packet is duplicated.
         """
+        # Entries that outlived their lifetime since the last reception are gone
+        # before this packet is processed (it must not revive their state).
+        self.refresh_table()
         with self.loc_t_lock:
             entry: LocationTableEntry | None = self.get_entry(
                 gbc_extended_header.so_pv.gn_addr)
